@@ -1,4 +1,6 @@
 """C11 — calendar conversions: case generators and configuration."""
+import os
+
 ID = "C11"
 LEVEL = "proof"
 # translator tie: these kernels are regenerated from /repo on every run and re-proved equal to the model (coq/C11/GenEquiv.v)
@@ -10,7 +12,8 @@ HARNESSES = [
     {"name": "san", "src": "harness.cpp",
      "flags": ["-O1", "-DTETL_ENABLE_CONTRACT_CHECKS=1", "-fsanitize=address,undefined", "-fno-sanitize-recover=all"]},
     # a second compiler at -O2
-    {"name": "clang", "src": "harness.cpp", "compiler": "clang++-14", "flags": ["-O2", "-DTETL_ENABLE_CONTRACT_CHECKS=1"]},
+    {"name": "clang", "src": "harness.cpp", "compiler": "clang++-14", "flags": ["-O2", "-DTETL_ENABLE_CONTRACT_CHECKS=1"],
+     "thorough_only": True},
 ]
 
 DAY_LO, DAY_HI = -12687428, 11248737
@@ -271,3 +274,36 @@ def gen_cal(tier, rng, quick):
 
 def nontrivial(case, impl):
     return impl.startswith("ok")
+
+
+def _probe(repo, compiler):
+    import subprocess
+    src = os.path.join(os.path.dirname(os.path.abspath(__file__)), "consteval.cpp")
+    try:
+        r = subprocess.run([compiler, "-std=c++20", f"-I{repo}/include", "-fsyntax-only", src],
+                           capture_output=True, text=True, timeout=300)
+    except Exception as e:  # noqa
+        return False, str(e)
+    lines = [l for l in (r.stdout + r.stderr).splitlines() if "error" in l]
+    return r.returncode == 0, "\n".join(lines[:6])
+
+
+def extra_checks(ctx):
+    """compile-only leg: the static_asserts of consteval.cpp under g++ and clang++"""
+    from concurrent.futures import ThreadPoolExecutor
+    repo = os.environ.get("VERIF_REPO", "/repo")
+    compilers = ("g++", "clang++-14")
+    with ThreadPoolExecutor(max_workers=2) as ex:
+        res = list(ex.map(lambda c: _probe(repo, c), compilers))
+    items, ok_n = [], 0
+    for c, (ok, err) in zip(compilers, res):
+        if ok:
+            ok_n += 1
+        else:
+            items.append({"kind": "violation", "found_input": True,
+                          "payload": {"property": "C11", "kind": "a calendar operation is not a constant expression or has the wrong value "
+                                      "in constant evaluation (props/C11/consteval.cpp)", "compiler": c, "compiler_output": err}})
+    n = sum(1 for l in open(os.path.join(os.path.dirname(os.path.abspath(__file__)), "consteval.cpp")) if l.startswith("static_assert"))
+    items.append({"kind": "note", "text": f"consteval.cpp: {n} static_asserts compile under {ok_n}/{len(compilers)} compilers"})
+    ctx.evidence = {"compile_only_probes": {"file": "props/C11/consteval.cpp", "static_asserts": n, "compilers_ok": ok_n}}
+    return items
